@@ -1022,6 +1022,10 @@ class TypeAnnotator:
         if kind and kind.is_type(exp.DType.UNKNOWN):
             return None
 
+        if kind:
+            # The type of a Cast is its own `to` node, which must not be moved into the struct's type
+            kind = kind.copy()
+
         if this:
             return exp.ColumnDef(this=this, kind=kind)
 
